@@ -137,6 +137,16 @@ def run(ctx):
             s_ = treemod.impl_summary(d)
             stats["orbit_divergent"] += int(bool(s_.get("div")))
             stats["orbit_errors"] += int(bool(s_.get("err")))
+            # from the statement alone: a transition during which an evaluation was faulty (the
+            # integrator reported a divergence for that step) is reported as divergent, whatever
+            # part of the tree building performed it (regular doubling, extra doubling)
+            res = d.get("result", {})
+            if "state" in res and any(lf["diverged"] for lf in d["leapfrogs"]) and not res.get("diverging"):
+                k_bad = next(i for i, lf in enumerate(d["leapfrogs"]) if lf["diverged"])
+                violation(ctx, "implementation violates C05: draw %d: leapfrog %d of the trajectory hit a faulty evaluation (divergence) but the draw is not reported as divergent" % (k, k_bad),
+                          {"case": {kk: vv for kk, vv in c.items() if kk != "words"}, "draw": k}, found_input=True)
+                ndiff += 1
+                continue
             if treemod.ambiguous(m, d):
                 continue
             diffs = treemod.compare_draw(c, d, m)
